@@ -29,6 +29,11 @@ def check(rep, tier):
     recs += sr.catalogue(rng, tier, dims=("spatial_2D",), cn=True, n2=1 if tier == "quick" else 3, confs=["VISF", "jacket", "shelf"], early_vacuum=True)
     # a trigger of exactly 0 C (a falsy number), in every dimensionality
     recs += sr.catalogue(rng, tier, dims=("homogeneous", "spatial_1D") if tier == "quick" else ("homogeneous", "spatial_1D", "spatial_2D"), cn=0.0, n0=1, n1=1, n2=1, confs=["shelf"])
+    # the trigger temperature given as a numpy scalar (element of an array / arange), not a python number
+    import numpy as _np
+    recs += sr.catalogue(rng, tier, dims=("homogeneous", "spatial_1D"), cn=_np.int64(-6), n0=1, n1=1, confs=["shelf"])
+    if tier != "quick":
+        recs += sr.catalogue(rng, tier, dims=("homogeneous", "spatial_1D", "spatial_2D"), cn=_np.float32(-6.5), n0=1, n1=1, n2=1, confs=["shelf"])
     # history: the trigger temperature is changed IN PLACE on the object's operating conditions after construction
     for dim in (("homogeneous", "spatial_1D") if tier == "quick" else ("homogeneous", "spatial_1D", "spatial_2D")):
         for first in ((-10.0,) if tier == "quick" else (-10.0, None)):
